@@ -294,7 +294,7 @@ def parseFmtLoop (s : Bytes) : Bytes → FmtState → Option (Option FmtState)
     else if c = 115 then num fun st v => { st with second := v }
     else
       (rd s st.pos).bind fun x =>
-      if c ≠ 63 ∧ x ≠ c then some none
+      if x = 0 ∨ (c ≠ 63 ∧ x ≠ c) then some none
       else parseFmtLoop s f { st with pos := st.pos + 1 }
 
 def parseFmt (s fmt : Bytes) : ParseResult :=
